@@ -399,6 +399,15 @@ func (o *Oracle) judgeMediation(e *Exchange, pol *Policy, path string) {
 			o.res.cover(key + "|served")
 			o.violate(e, "C01.A4-due-check-confirmed", fmt.Sprintf("%s check was due but /%s was never asked", due, firstEP), "due", due, "endpoint", firstEP)
 			o.violate(e, "C04.A5-served-only-after-confirmation", fmt.Sprintf("%s check was due but /%s was never asked", due, firstEP), "due", due, "endpoint", firstEP)
+			if m != nil && !m.Minted && pol.GroupsRequired() && firstChild(e, "profile") == nil {
+				// served at a due check without any question about this user's groups: if the directory does not list
+				// them in an allowed group (and no e-mail rule admits them), the verdict differs from what a login would get
+				truth := o.w.IdP.UserGroups(S.Email)
+				if !pol.Admits(S.Email, func(g string) bool { return contains(truth, g) }) {
+					o.violate(e, "C11.A2-same-verdict-later", fmt.Sprintf("granted to %q at a due check without asking about their groups; the directory lists them in %v and no rule of %s admits them", S.Email, truth, pol.Service),
+						"direction", "wrongly-served", "cause", "served-without-asking")
+				}
+			}
 			if pol.GroupsRequired() && foreignProfile != "" && firstChild(e, "profile") == nil {
 				o.violate(e, "C13.A5-policy-of-this-upstream", fmt.Sprintf("a request to %s (groups %v) was served while the only group check made was about %q — another upstream's rule", e.Host, pol.Groups, foreignProfile))
 			}
